@@ -18,7 +18,7 @@ SPEC = dict(
                 "F36 (run_hooks panicked on a runnable tick holding a PassthroughSingletonHook with an empty buffer: every tape, reproduced end to end) is FIXED in /repo: the hook now keeps last_released and re-releases it as a trivial decision, is_ready() waits for the fold's first value; the former refutation theorem is replaced by the positive theorem above and the witness is a passing corpus case + a hydro_lang regression test. Tie: the same op lines (hook "
                 "creation, feeding, autonomous_decision with a tape, release_decision, can_run, run_hooks via a cfg-guarded "
                 "re-export) run on the real hooks with a scripted DynDriver and on the compiled model; every answer, the "
-                "driver-call log (ranges + values) and the queue contents are diffed; the property is also evaluated on the real "
+                "driver-call log (ranges + values), the sequence of hook calls run_hooks makes with the force_nontrivial argument of each (observed through a recording SimHook wrapper) and the queue contents are diffed; the property is also evaluated on the real "
                 "outputs by an independent oracle (prefix/subset/permutation/version/is_ready/progress checks written against the property, with its own record of released snapshots)."),
     level_note=("Trusted: Lean kernel + propext/Classical.choice/Quot.sound; FxHashMap iteration order is an input of the model "
                 "(observed from the real map and written into the op line); Hook.WF (distinct hash-map keys; a KeyedSingletonHook key with an empty queue has been released before) is a hypothesis of the no-panic theorem; it holds for freshly created hooks fed by entry(k).or_default().push_back(v) (by inspection of builder.rs, not modelled) and is preserved by every decision + release (hook_wf_preserved, runHooks_preserves_wf); run_hooks is shown to act hook by hook (runHooks_is_hookwise), which carries the per-hook theorems to each component of its result: runHooks_tick_decisions_sound states the prefix / sub-multiset / per-key / snapshot clause (HookSound, by hook kind) for every hook of a tick on run_hooks' own output, runHooks_nothing_lost_nothing_twice the permutation clause; the choice-tape convention 'every generate() consumes one entry' is that of the harness's scripted driver - bolero's exhaustive driver draws nothing for one-value ranges and its byte driver consumes by type width, which changes tapes but not the sets of decisions; unsync mpsc channel, VecDeque, bolero's Borrowed/"
